@@ -18,7 +18,7 @@ pub fn prop() -> Prop {
         max_len: 700,
         quick: 600_000,
         thorough: 6_000_000,
-        rule: "four streams of byte strings: (1) valid encodings from the harness encoder; (2) structural mutants of valid encodings at the CBOR-item level, one or two of {swap / duplicate / drop an array element, truncate array to 0/1, append an element, retag (201->24, 200<->201, unknown), retype an element, digest of 31/33 bytes, assertion map with 0/2 entries, non-shortest head, indefinite-length container, unsorted/duplicate keys in a leaf map, non-canonical float/NaN, extra or missing element in an encrypted/compressed array, simple value}; (3) byte mutants (bit flip, insert, delete, splice, truncate); (4) random bytes, half of them behind a #6.200 head. oracle: try_from_cbor_data never panics (nesting <= 64); if it returns Ok(e) then e.to_cbor_data() equals the input except #6.24->#6.201 at leaf positions, the harness parser finds the input deterministic CBOR, and the harness recogniser accepts it (it rejects for exactly: node arity, non-assertion in slot, order, duplicate, unknown tag, digest length, assertion map size, non-envelope item). non-trivial: input parses as CBOR and is not byte-identical to an encoder output; distinct by FNV-64 of the input bytes",
+        rule: "four streams of byte strings: (1) valid encodings from the harness encoder; (2) structural mutants of valid encodings at the CBOR-item level, one or two of {swap / duplicate / drop an array element, truncate array to 0/1, append an element, retag (201->24, 200<->201, unknown), retype an element, digest of 31/33 bytes, assertion map with 0/2 entries, non-shortest head, indefinite-length container, unsorted/duplicate keys in a leaf map, non-canonical float/NaN, extra or missing element in an encrypted/compressed array, simple value}; (3) byte mutants (bit flip, insert, delete, splice, truncate); (4) random bytes, half of them behind a #6.200 head. oracle: try_from_cbor_data never panics (nesting <= 64); if it returns Ok(e) then e.to_cbor_data() equals the input except #6.24->#6.201 at leaf positions, the harness parser finds the input deterministic CBOR, and the harness recogniser accepts it (it rejects for exactly: node arity, non-assertion in slot, order, duplicate, unknown tag, digest length, assertion map size, non-envelope item). non-trivial: input parses as CBOR and is not byte-identical to an encoder output; distinct by FNV-64 of the input bytes; one repeated element in three is the element's elided digest (same digest, other form)",
         assumptions: &["the harness recogniser does not judge the interior of encrypted/compressed elements beyond their array shape; leniency there is caught by the re-encode comparison"],
         extra: None,
     }
